@@ -114,7 +114,6 @@ func namedOfShort(t types.Type) string {
 var documentedInfallible = map[string]bool{
 	"(*strings.Builder).WriteString": true, "(*strings.Builder).WriteByte": true, "(*strings.Builder).WriteRune": true, "(*strings.Builder).Write": true,
 	"(*bytes.Buffer).WriteString": true, "(*bytes.Buffer).WriteByte": true, "(*bytes.Buffer).WriteRune": true, "(*bytes.Buffer).Write": true,
-	"hash.Hash.Write": true,
 }
 
 func (r *Run) neverFails(site ssa.CallInstruction, depth int) bool {
@@ -123,6 +122,12 @@ func (r *Run) neverFails(site ssa.CallInstruction, depth int) bool {
 	}
 	if documentedInfallible[calleeName(site.Common())] {
 		return true
+	}
+	if c := site.Common(); c.IsInvoke() && c.Method.Name() == "Write" {
+		switch namedOf(c.Value.Type()) {
+		case "hash.Hash", "hash.Hash32", "hash.Hash64":
+			return true // "It never returns an error."
+		}
 	}
 	callees := []*ssa.Function{}
 	for _, e := range r.P.CG.Out[site.Parent()] {
